@@ -211,3 +211,152 @@ Section Radial.
     rewrite (rpow_pos 1) in H by lra. rewrite ln_1, Rmult_0_r, exp_0, Rmult_1_r in H. exact H.
   Qed.
 End Radial.
+
+(* ---------- bounds: 0 <= P <= 1, P(m, x) <= x^m/m! near 0, 1 - P(m, x) <= m (m+1)!/x^2 for x >= 1; total light = flux ---------- *)
+
+(* partial exponential sums are Coquelicot / stdlib's sum_f_R0 *)
+Lemma psum_sum_f_R0 n x : psum (S n) x = sum_f_R0 (fun k => x ^ k / INR (fact k)) n.
+Proof.
+  unfold psum. induction n as [|n IH]; [cbn [rsum sum_f_R0]; ring|].
+  change (rsum (fun k => x ^ k / INR (fact k)) (S (S n))) with (rsum (fun k => x ^ k / INR (fact k)) (S n) + x ^ S n / INR (fact (S n))).
+  rewrite IH. reflexivity.
+Qed.
+
+Lemma psum_le_exp m x : 0 <= x -> psum m x <= exp x.
+Proof.
+  intros Hx. destruct m as [|m].
+  - unfold psum. cbn [rsum]. left. apply exp_pos.
+  - rewrite psum_sum_f_R0. apply exp_ge_taylor. exact Hx.
+Qed.
+
+Lemma psum_nonneg m x : 0 <= x -> 0 <= psum m x.
+Proof.
+  intros Hx. unfold psum. apply rsum_ge0. intros k _.
+  apply Rmult_le_pos; [apply pow_le; exact Hx|]. left. apply Rinv_0_lt_compat. apply lt_0_INR, lt_O_fact.
+Qed.
+
+(* 0 <= P(m, x) <= 1 *)
+Lemma enclosed_fraction_range m x : 0 <= x -> 0 <= enclosed_fraction m x <= 1.
+Proof.
+  intros Hx. unfold enclosed_fraction. rewrite horner_is_psum.
+  pose proof (psum_le_exp m x Hx) as H1. pose proof (psum_nonneg m x Hx) as H0. pose proof (exp_pos (- x)) as He.
+  assert (E : exp (- x) * exp x = 1) by (rewrite <- exp_plus; replace (- x + x) with 0 by ring; apply exp_0).
+  split.
+  - assert (exp (- x) * psum m x <= exp (- x) * exp x) by (apply Rmult_le_compat_l; lra). lra.
+  - assert (0 <= exp (- x) * psum m x) by (apply Rmult_le_pos; lra). lra.
+Qed.
+
+(* each term of the partial sum is at most x^(m-1) for x >= 1, so psum m x <= m x^(m-1) *)
+Lemma psum_le_pow m x : 1 <= x -> psum m x <= INR m * x ^ (m - 1).
+Proof.
+  intros Hx. unfold psum. induction m as [|m IH]; [cbn [rsum INR]; lra|].
+  cbn [rsum]. replace (S m - 1)%nat with m by lia.
+  assert (Hterm : x ^ m / INR (fact m) <= x ^ m).
+  { assert (1 <= INR (fact m)) by (apply (le_INR 1), lt_O_fact).
+    assert (0 <= x ^ m) by (apply pow_le; lra).
+    apply (Rle_trans _ (x ^ m / 1)); [|right; field].
+    unfold Rdiv. apply Rmult_le_compat_l; [assumption|]. apply Rinv_le_contravar; lra. }
+  assert (Hprev : INR m * x ^ (m - 1) <= INR m * x ^ m).
+  { apply Rmult_le_compat_l; [apply pos_INR|]. apply Rle_pow; [lra|lia]. }
+  rewrite S_INR. lra.
+Qed.
+
+(* tail bound: for x >= 1 the light outside, 1 - P(m, x), is at most m (m+1)! / x^2 *)
+Lemma enclosed_fraction_tail m x : 1 <= x -> 1 - enclosed_fraction m x <= INR m * INR (fact (S m)) / x ^ 2.
+Proof.
+  intros Hx. unfold enclosed_fraction. rewrite horner_is_psum.
+  assert (Hx0 : 0 <= x) by lra.
+  pose proof (psum_le_pow m x Hx) as Hp.
+  (* exp x >= x^(m+1) / (m+1)! *)
+  assert (Hexp : x ^ S m / INR (fact (S m)) <= exp x).
+  { apply (Rle_trans _ (psum (S (S m)) x)); [|apply psum_le_exp; exact Hx0].
+    unfold psum. cbn [rsum].
+    assert (0 <= rsum (fun k => x ^ k / INR (fact k)) m) by (apply (psum_nonneg m x Hx0)).
+    assert (0 <= x ^ m / INR (fact m)).
+    { apply Rmult_le_pos; [apply pow_le; lra|]. left. apply Rinv_0_lt_compat, lt_0_INR, lt_O_fact. }
+    lra. }
+  assert (Hf : 0 < INR (fact (S m))) by (apply lt_0_INR, lt_O_fact).
+  assert (Hxm : 0 < x ^ S m) by (apply pow_lt; lra).
+  assert (Hinv : exp (- x) <= INR (fact (S m)) / x ^ S m).
+  { rewrite exp_Ropp. apply (Rle_trans _ (/ (x ^ S m / INR (fact (S m))))).
+    - apply Rinv_le_contravar; [apply Rdiv_lt_0_compat; assumption|exact Hexp].
+    - right. field. split; lra. }
+  replace (1 - (1 - exp (- x) * psum m x)) with (exp (- x) * psum m x) by ring.
+  apply (Rle_trans _ (INR (fact (S m)) / x ^ S m * (INR m * x ^ (m - 1)))).
+  - apply Rmult_le_compat; [left; apply exp_pos|apply psum_nonneg; exact Hx0|exact Hinv|exact Hp].
+  - destruct m as [|m']; [cbn [INR]; right; unfold Rdiv; ring|].
+    replace (S m' - 1)%nat with m' by lia. right.
+    assert (Hxp : 0 < x ^ m') by (apply pow_lt; lra).
+    cbn [pow]. field. repeat split; lra.
+Qed.
+
+(* near zero: P(m, x) <= x^m / m!  (the integrand is below t^(m-1)/(m-1)!) *)
+Lemma enclosed_fraction_small m x : (0 < m)%nat -> 0 <= x -> enclosed_fraction m x <= x ^ m / INR (fact m).
+Proof.
+  intros Hm Hx.
+  pose proof (enclosed_fraction_is_incomplete_gamma m x Hm) as HP.
+  assert (HQ : is_RInt (fun t => t ^ (m - 1) / INR (fact (m - 1))) 0 x (x ^ m / INR (fact m))).
+  { replace (x ^ m / INR (fact m)) with (minus (x ^ m / INR (fact m)) (0 ^ m / INR (fact m))).
+    2:{ unfold minus, plus, opp. simpl. rewrite pow_i by exact Hm. unfold Rdiv. ring. }
+    apply (is_RInt_derive (fun t => t ^ m / INR (fact m)) (fun t => t ^ (m - 1) / INR (fact (m - 1)))).
+    - intros t _. destruct m as [|m']; [lia|]. replace (S m' - 1)%nat with m' by lia.
+      auto_derive; [exact I|].
+      change (match m' with O => 1 | S _ => INR m' + 1 end) with (INR (S m')).
+      rewrite S_INR, plus_INR, mult_INR.
+      assert (0 < INR (fact m')) by (apply lt_0_INR, lt_O_fact). pose proof (pos_INR m').
+      field. split; nra.
+    - intros t _. apply (ex_derive_continuous (fun t => t ^ (m - 1) / INR (fact (m - 1)))). auto_derive. exact I. }
+  rewrite <- (is_RInt_unique _ _ _ _ HP), <- (is_RInt_unique _ _ _ _ HQ).
+  apply RInt_le; [exact Hx|eexists; exact HP|eexists; exact HQ|].
+  intros t [Ht0 _].
+  assert (Hpw : 0 <= t ^ (m - 1)) by (apply pow_le; lra).
+  assert (Hf : 0 < / INR (fact (m - 1))) by (apply Rinv_0_lt_compat, lt_0_INR, lt_O_fact).
+  assert (He : exp (- t) <= 1).
+  { rewrite <- exp_0. destruct (Req_dec t 0) as [->|Hne]; [rewrite Ropp_0; lra|]. left. apply exp_increasing. lra. }
+  unfold Rdiv. apply Rmult_le_compat_r; [lra|].
+  rewrite <- (Rmult_1_l (t ^ (m - 1))) at 2. apply Rmult_le_compat_r; assumption.
+Qed.
+
+Lemma rpow_nonneg x y : 0 <= rpow x y.
+Proof. unfold rpow. destruct (Rle_dec x 0); [lra|left; apply exp_pos]. Qed.
+
+(* the `flux` argument IS the total light of the generated 1-D profile (integer 2n = m): the light between radii a and Rout differs
+   from flux by at most |flux| (ta^m / m! + m (m+1)! / tR^2), ta = b_n (a/re)^(1/n) -> 0 as a -> 0, tR = b_n (Rout/re)^(1/n) -> infinity *)
+Theorem sersic1d_total_light lg flux re m a Rout :
+  0 < re -> (0 < m)%nat -> exp (lg (2 * (INR m / 2))) = INR (fact (m - 1)) -> 0 < a -> a <= Rout ->
+  let ta := sersic_bn (INR m / 2) * rpow (a / re) (1 / (INR m / 2)) in
+  let tR := sersic_bn (INR m / 2) * rpow (Rout / re) (1 / (INR m / 2)) in
+  1 <= tR ->
+  exists L, is_RInt (fun r => 2 * PI * r * sersic1d lg r flux re (INR m / 2)) a Rout L /\
+            Rabs (L - flux) <= Rabs flux * (ta ^ m / INR (fact m) + INR m * INR (fact (S m)) / tR ^ 2).
+Proof.
+  intros Hre Hm Hlg Ha HaR ta tR HtR.
+  exists (flux * enclosed_fraction m tR - flux * enclosed_fraction m ta). split.
+  - exact (sersic1d_light_between lg flux re m Hre Hm Hlg a Rout Ha HaR).
+  - pose proof (b_pos m Hm) as Hb.
+    assert (Hta : 0 <= ta) by (unfold ta; apply Rmult_le_pos; [lra|apply rpow_nonneg]).
+    assert (HtR0 : 0 <= tR) by lra.
+    pose proof (enclosed_fraction_range m ta Hta) as [Ha0 _].
+    pose proof (enclosed_fraction_range m tR HtR0) as [_ HR1].
+    pose proof (enclosed_fraction_small m ta Hm Hta) as Hsm.
+    pose proof (enclosed_fraction_tail m tR HtR) as Htl.
+    replace (flux * enclosed_fraction m tR - flux * enclosed_fraction m ta - flux)
+      with (- (flux * ((1 - enclosed_fraction m tR) + enclosed_fraction m ta))) by ring.
+    rewrite Rabs_Ropp, Rabs_mult. apply Rmult_le_compat_l; [apply Rabs_pos|].
+    rewrite Rabs_pos_eq by lra. lra.
+Qed.
+
+(* non-vacuity: the hypotheses of the light-curve theorems are met, e.g. by the exponential profile n = 1 (m = 2) with
+   lg the constant 0 = ln Gamma(2), r_eff = 1, and radii 1/2 <= 4 whose outer argument b_n (4/1)^(1/1) = 6.67 >= 1 *)
+Example light_curve_hypotheses_hold :
+  let lg := fun _ : R => 0 in
+  0 < 1 /\ (0 < 2)%nat /\ exp (lg (2 * (INR 2 / 2))) = INR (fact (2 - 1)) /\ 0 < 1 / 2 /\ 1 / 2 <= 4 /\
+  1 <= sersic_bn (INR 2 / 2) * rpow (4 / 1) (1 / (INR 2 / 2)).
+Proof.
+  cbn zeta. repeat split; try lra; try lia.
+  - rewrite exp_0. reflexivity.
+  - unfold sersic_bn. simpl (INR 2). rewrite rpow_pos by lra.
+    replace (1 / ((1 + 1) / 2) * ln (4 / 1)) with (ln 4) by (replace (4 / 1) with 4 by field; field).
+    rewrite exp_ln by lra. lra.
+Qed.
+
